@@ -39,7 +39,7 @@ def run(ctx):
         "fault = SIGKILL of a child process that runs the real db.Open + StoreSignedVAA on a directory under .work, delivered after a "
         "PRNG-chosen number of acknowledged stores (0 .. quota, incl. before/right after Open and after the whole quota) plus a PRNG-chosen "
         "delay of 0-1.5 ms; %d-cycle sequences on the SAME directory (quick: 2 directories x 10 cycles x up to 1200 stores over 900 identifiers "
-        "with a hot overwrite set, payloads 40 B - 32 KB; thorough: 4 directories x 40 cycles x 1500 stores over 2500 identifiers, payloads up to 1.3 MB so the value "
+        "with a hot overwrite set, payloads 40 B - 32 KB, one attempt in 25 a VAA that StoreSignedVAA acknowledges and vaa.Unmarshal rejects - empty / nil payload, version 0 / 2 - which has to come back byte-exact and must not keep the directory from reopening; thorough: 4 directories x 40 cycles x 1500 stores over 2500 identifiers, payloads up to 1.3 MB so the value "
         "log is used); after every kill a second child reopens the directory with db.Open and reads back EVERY identifier of the universe "
         "(that child is then either closed cleanly or SIGKILLed too). evaluations = reopen results + lookups judged by acceptKey; "
         "distinct_nontrivial = kill cycles where the kill hit mid-stream (the child had not finished its quota); the verdict per lookup is "
@@ -67,6 +67,6 @@ def run(ctx):
     rule = ctx.cov.get("rule", "")
     dist = ctx.cov.get("generator_distribution")
     c12.run_rpc_for(ctx, c12.RPC_C16)
-    ctx.cov["rule"] = rule + " | RPC lookups: the publicrpc part of the C12 harness, clauses rpc-get-lost / rpc-get-wrong-bytes and, entry by entry for GetNonGovernanceVAABatch (all sequences of every stream, stored ones and holes, in batches of 2..20), rpc-batch-wrong-bytes / rpc-batch-phantom / rpc-batch-lost"
+    ctx.cov["rule"] = rule + " | RPC lookups: the publicrpc part of the C12 harness, clauses rpc-get-lost / rpc-get-wrong-bytes and, entry by entry for GetNonGovernanceVAABatch (all sequences of every stream, stored ones and holes, in batches of 2..20), rpc-batch-wrong-bytes / rpc-batch-phantom / rpc-batch-lost; a stored identifier whose lookup ends with an error on a readable store counts as rpc-get-lost / rpc-batch-lost too; chain ids over the whole uint16 range (enum values, their neighbours, 256+), lookups repeated after a clean restart of the store"
     if dist is not None:
         ctx.cov["generator_distribution"] = dist
